@@ -1,5 +1,5 @@
 """C04 — Malformed input is rejected cleanly and in bounded time."""
-import io, os, random, struct, traceback, multiprocessing, resource, time
+import io, errno, os, random, struct, traceback, multiprocessing, resource, time
 from guards import timed
 
 RULE = ("mutations (bit/byte flips, truncation, splice of two files, duplication, insertion, 32/64-bit field extremes at random and at "
@@ -142,7 +142,15 @@ def site_of(exc):
 class BufferedLike(io.BytesIO):
     """an in-memory object with the semantics of open(path, "rb+") - what mutagen works on whenever it is given a file
     name - where they differ from io.BytesIO: read(n) with n < -1 raises ValueError instead of reading everything, and
-    truncate(n) beyond the end extends the file with zeros"""
+    truncate(n) beyond the end extends the file with zeros, and a seek to a position before the start of the file raises
+    OSError(EINVAL) (io.BytesIO raises ValueError for a negative absolute position and silently stops at 0 for relative
+    ones)"""
+
+    def seek(self, off, whence=0):
+        base = 0 if whence == 0 else self.tell() if whence == 1 else len(self.getvalue())
+        if whence in (0, 1, 2) and isinstance(off, int) and base + off < 0:
+            raise OSError(errno.EINVAL, "Invalid argument")
+        return io.BytesIO.seek(self, off, whence)
 
     def read(self, n=-1):
         if n is not None and n < -1:
